@@ -60,6 +60,7 @@ pub struct Out {
     pub dir: PathBuf,
     pub cases: BufWriter<File>,
     pub imp: BufWriter<File>,
+    pub imp2: Option<BufWriter<File>>,
     pub n: u64,
     pub counters: BTreeMap<String, u64>,
     pub violations: Vec<String>,
@@ -74,6 +75,7 @@ impl Out {
         Out {
             cases: BufWriter::new(File::create(d.join("cases.txt")).unwrap()),
             imp: BufWriter::new(File::create(d.join("impl.txt")).unwrap()),
+            imp2: None,
             dir: d,
             n: 0,
             counters: BTreeMap::new(),
@@ -92,6 +94,14 @@ impl Out {
         }
         self.n += 1;
     }
+    /// a case with a second implementation-side line (e.g. a verdict), written to impl2.txt
+    pub fn case2(&mut self, case_line: &str, impl_line: &str, impl2_line: &str) {
+        if self.imp2.is_none() {
+            self.imp2 = Some(BufWriter::new(File::create(self.dir.join("impl2.txt")).unwrap()));
+        }
+        writeln!(self.imp2.as_mut().unwrap(), "{}", impl2_line).unwrap();
+        self.case(case_line, impl_line);
+    }
     pub fn count(&mut self, key: &str) {
         *self.counters.entry(key.to_string()).or_insert(0) += 1;
     }
@@ -108,6 +118,7 @@ impl Out {
     pub fn finish(mut self) {
         self.cases.flush().unwrap();
         self.imp.flush().unwrap();
+        if let Some(f) = self.imp2.as_mut() { f.flush().unwrap(); }
         let mut s = String::from("{\n");
         write!(s, " \"cases\": {},\n", self.n).unwrap();
         s.push_str(" \"counters\": {");
